@@ -70,6 +70,9 @@ type Exec struct {
 	ptrIDs   map[*Val]int
 	stack    []*ssa.Function
 	trace    string
+	mapMode  int
+	mapSite  int
+	mapSites int
 	obs      []obsRec
 }
 
